@@ -279,6 +279,20 @@ type world struct {
 	prov       *fakeProvider
 }
 
+var args c.Args
+
+// brokenTie: the code under test no longer does something the harness relies on (constructing the
+// authenticator, sealing a session). That is a broken correspondence, not trouble in the harness's own
+// infrastructure: write one case that the model cannot agree with, so that the check ends as
+// VIOLATION ... no-failing-input-found, and stop.
+func brokenTie(msg string, err error) {
+	cs := c.Case{Coq: "CVal [] false [] []",
+		JSON: map[string]interface{}{"kind": "broken tie", "what": msg, "error": fmt.Sprint(err)}}
+	c.Must(c.WriteShards(args.Out, "Corr_C08", []c.Case{cs}, args.Shard))
+	fmt.Printf("broken tie: %s: %v\n", msg, err)
+	os.Exit(0)
+}
+
 func mustCipher(b64 string) *aead.MiscreantCipher {
 	k, err := base64.StdEncoding.DecodeString(b64)
 	c.Must(err)
@@ -302,7 +316,9 @@ func newWorld(id, secret string) *world {
 	cfg := baseConfig(map[string]auth.ClientConfig{"proxy": {ID: id, Secret: secret}})
 	prov := &fakeProvider{ProviderData: &providers.ProviderData{ProviderName: "Fake", ProviderSlug: "test"}}
 	a, err := newAuthenticator(cfg, prov)
-	c.Must(err)
+	if err != nil {
+		brokenTie("auth.NewAuthenticator refuses the driver's configuration", err)
+	}
 	w := &world{id: id, secret: secret, valid: cfg.Validate() == nil, a: a, prov: prov}
 	// [gated] sits directly in front of the authenticator's mux (inside the timeout handler, which
 	// buffers the response) and does nothing for a request that runs alone
@@ -606,7 +622,9 @@ func (g *gen) sealWith(ci *aead.MiscreantCipher, base time.Time, s sess) string 
 		ValidDeadline:    base.Add(time.Minute),
 		Groups:           []string{"zqGRPsealed"},
 	}, ci)
-	c.Must(err)
+	if err != nil {
+		brokenTie("sessions.MarshalSession fails on a plain session", err)
+	}
 	return v
 }
 
@@ -692,7 +710,8 @@ func (g *gen) genCode(base time.Time, hot bool) codeSpec {
 
 // the open oracle, computed with the real ciphers
 func (g *gen) open(base time.Time, v string) *tabEntry {
-	for i, ci := range []*aead.MiscreantCipher{g.code, g.cookie, g.foreign} {
+	// fresh cipher objects for every question: the oracle must not remember earlier answers
+	for i, ci := range []*aead.MiscreantCipher{mustCipher(codeKeyB64), mustCipher(cookieKeyB64), mustCipher(foreignKeyB64)} {
 		s, err := sessions.UnmarshalSession(v, ci)
 		if err == nil && s != nil {
 			return &tabEntry{Code: v, Key: i + 1, S: sess{Email: s.Email, Access: s.AccessToken, Refresh: s.RefreshToken,
@@ -721,6 +740,38 @@ type prepared struct {
 	base time.Time
 	tab  []tabEntry
 	keys []string // request-supplied values by which the fake provider recognises this request
+	// the parameters before rendering, so that a follow-up request can be derived from this one
+	q, b   []pair
+	qj, bj []string
+	now    int64  // time of the request, whole seconds after base (0 unless part of a timed sequence)
+	why    string // for a follow-up request: what was changed with respect to its parent
+}
+
+// finish renders the query string and the body from the parameter lists
+func (g *gen) finish(p *prepared) {
+	r := g.r
+	p.spec.Query = render(r, p.q, p.qj)
+	switch {
+	case strings.HasPrefix(p.spec.CType, "multipart/"):
+		p.spec.Body = multipartBody(p.b)
+	case p.spec.CType == "application/json":
+		p.spec.Body = jsonBody(p.b)
+	default:
+		p.spec.Body = render(r, p.b, p.bj)
+	}
+}
+
+// clone copies a prepared request deeply enough to edit its parameters
+func (p *prepared) clone() *prepared {
+	c2 := *p
+	c2.q = append([]pair{}, p.q...)
+	c2.b = append([]pair{}, p.b...)
+	c2.spec.Headers = append([]pair{}, p.spec.Headers...)
+	c2.spec.IDs = append([]string{}, p.spec.IDs...)
+	c2.spec.Secrets = append([]string{}, p.spec.Secrets...)
+	c2.tab = append([]tabEntry{}, p.tab...)
+	c2.sc.Groups = append([]string{}, p.sc.Groups...)
+	return &c2
 }
 
 func (p *prepared) markers() []string {
@@ -768,12 +819,186 @@ func (p *prepared) execute(t *ticket) (rec *httptest.ResponseRecorder, panicked 
 
 // runSeq: the request alone
 func (g *gen) runSeq(p *prepared) c.Case {
+	cs, _ := g.runSeqObs(p)
+	return cs
+}
+
+func (g *gen) runSeqObs(p *prepared) (c.Case, obs) {
 	p.w.prov.register(p.keys, &regEntry{sc: p.sc})
 	p.w.prov.takeCalls()
 	rec, panicked := p.execute(nil)
 	calls := p.w.prov.takeCalls()
 	p.w.prov.register(p.keys, nil)
-	return g.emit(p, g.observe(p, rec, panicked, calls, nil), 0)
+	o := g.observe(p, rec, panicked, calls, nil)
+	return g.emit(p, o, 0), o
+}
+
+// runTimed: like runSeq, but the wall clock is read around the request and the case says at which
+// second after p.base it ran. The verdict of a deadline comparison is determined only if no
+// deadline of a session involved lies inside the measured interval; otherwise nothing is emitted
+// (ok = false) -- that happens only when the machine stalls for seconds.
+func (g *gen) runTimed(p *prepared) (cs c.Case, ok bool) {
+	p.w.prov.register(p.keys, &regEntry{sc: p.sc})
+	p.w.prov.takeCalls()
+	tb := time.Now()
+	rec, panicked := p.execute(nil)
+	ta := time.Now()
+	calls := p.w.prov.takeCalls()
+	p.w.prov.register(p.keys, nil)
+	var offs []int64
+	for _, t := range p.tab {
+		offs = append(offs, t.S.RefreshOff, t.S.LifeOff)
+	}
+	for _, d := range offs {
+		dl := p.base.Add(time.Duration(d) * time.Second)
+		if !dl.Before(tb.Add(-50*time.Millisecond)) && !dl.After(ta.Add(50*time.Millisecond)) {
+			return c.Case{}, false
+		}
+	}
+	el := ta.Sub(p.base)
+	p.now = int64(el / time.Second)
+	if el%time.Second != 0 {
+		p.now++ // ceiling: now > d exactly when the deadline base+d lies before the request
+	}
+	return g.emit(p, g.observe(p, rec, panicked, calls, nil), 0), true
+}
+
+const b64alpha = "ABCDEFGHIJKLMNOPQRSTUVWXYZabcdefghijklmnopqrstuvwxyz0123456789-_"
+
+func (g *gen) randB64(n int) string {
+	b := make([]byte, n)
+	for i := range b {
+		b[i] = b64alpha[g.r.Intn(64)]
+	}
+	return string(b)
+}
+
+// forgeFrom: strings derived from a genuine code that the service has just opened: they share a
+// part of it (the first 16/32 decoded bytes, the nonce at the end, one half) and are otherwise new
+func (g *gen) forgeFrom(v string) (string, string) {
+	r := g.r
+	if len(v) < 96 {
+		return v + "AAAA", "extended"
+	}
+	switch r.Intn(8) {
+	case 0:
+		return v[:22] + g.randB64(86+4*r.Intn(20)), "first 16 decoded bytes kept, rest new"
+	case 1:
+		return v[:44] + g.randB64(64+4*r.Intn(20)), "first 33 decoded bytes kept, rest new"
+	case 2:
+		return g.randB64(len(v)-22) + v[len(v)-22:], "nonce kept, rest new"
+	case 3:
+		h := (len(v) / 8) * 4
+		return v[:h] + g.randB64(len(v)-h), "first half kept"
+	case 4:
+		h := (len(v) / 8) * 4
+		return g.randB64(h) + v[h:], "second half kept"
+	case 5:
+		i := 24 + r.Intn(len(v)-48)
+		ch := b64alpha[(strings.IndexByte(b64alpha, v[i])+1+r.Intn(63))%64]
+		return v[:i] + string(ch) + v[i+1:], "one character changed"
+	case 6:
+		return v[:len(v)-4*(1+r.Intn(4))], "truncated"
+	}
+	return v[:22] + v[22+4:], "four characters removed after the first 16 bytes"
+}
+
+func setPair(l []pair, k, v string) bool {
+	hit := false
+	for i := range l {
+		if l[i].K == k {
+			l[i].V = v
+			hit = true
+		}
+	}
+	return hit
+}
+
+func dropPairs(l []pair, k string) []pair {
+	var out []pair
+	for _, x := range l {
+		if x.K != k {
+			out = append(out, x)
+		}
+	}
+	return out
+}
+
+// followUps: requests derived from one that the SAME service instance has just served, sent right
+// after it. Anything the service remembers between requests (memo tables, caches, pooled objects,
+// authorisation decisions) shows as a difference from the per-request model:
+//   - /redeem: strings that share a part of the genuine code just redeemed; the genuine code again;
+//   - the same request without / with a wrong client secret;
+//   - the same request when the provider's answer has changed (revoked, other groups, other token).
+func (g *gen) followUps(p *prepared, o obs) []*prepared {
+	r := g.r
+	var out []*prepared
+	if o.Status < 200 || o.Status > 299 {
+		return nil
+	}
+	if p.spec.Path == "/redeem" && p.code.Kind == 1 {
+		for i, n := 0, 1+r.Intn(2); i < n; i++ {
+			f := p.clone()
+			v, why := g.forgeFrom(p.code.Value)
+			if v == p.code.Value || !(setPair(f.q, "code", v) || setPair(f.b, "code", v)) {
+				continue
+			}
+			setPair(f.b, "code", v)
+			f.code = codeSpec{Kind: 5, Value: v, S: p.code.S}
+			f.tab = nil
+			if e := g.open(f.base, v); e != nil {
+				f.tab = []tabEntry{*e}
+			}
+			f.why = "after the genuine code was redeemed: " + why
+			g.finish(f)
+			out = append(out, f)
+		}
+		if r.Chance(0.3) {
+			f := p.clone()
+			f.why = "the same genuine code again"
+			g.finish(f)
+			out = append(out, f)
+		}
+	}
+	if r.Chance(0.5) {
+		f := p.clone()
+		f.q, f.b = dropPairs(f.q, "client_secret"), dropPairs(f.b, "client_secret")
+		f.spec.Headers = dropPairs(f.spec.Headers, "X-Client-Secret")
+		f.spec.Secrets = []string{}
+		f.why = "the request just served, now without any client secret"
+		if r.Chance(0.5) {
+			wv := g.wrongOf(p.w.secret)
+			f.spec.Headers = append(f.spec.Headers, pair{"X-Client-Secret", wv})
+			f.spec.Secrets = []string{wv}
+			f.why = "the request just served, now with a wrong client secret"
+		}
+		g.finish(f)
+		out = append(out, f)
+	}
+	if p.spec.Path != "/redeem" && r.Chance(0.6) {
+		f := p.clone()
+		g.seq++
+		switch p.spec.Path {
+		case "/refresh":
+			if r.Chance(0.5) {
+				f.sc.RefreshErr = r.Pick([]string{"400", "401", "429", "503", "500"})
+			} else {
+				f.sc.RefreshTok, f.sc.RefreshExp = fmt.Sprintf("zqNEWAT%dx", g.seq), f.sc.RefreshExp+60
+			}
+		case "/profile":
+			if r.Chance(0.5) {
+				f.sc.GroupsErr = r.Pick([]string{"400", "401", "429", "503", "500"})
+			} else {
+				f.sc.Groups = []string{fmt.Sprintf("zqGRP%d_0", g.seq)}
+			}
+		case "/validate":
+			f.sc.Valid = !f.sc.Valid
+		}
+		f.why = "the request just served, after the provider's answer changed"
+		g.finish(f)
+		out = append(out, f)
+	}
+	return out
 }
 
 // runBatch: all requests in flight at once through the real handler chains, held by the gates
@@ -962,13 +1187,19 @@ func (g *gen) emit(p *prepared, o obs, mode int) c.Case {
 	if code.S != nil {
 		cs = "(Some " + code.S.coq() + ")"
 	}
-	coq := fmt.Sprintf("CReq %d {| cfg_id := %s; cfg_secret := %s; cfg_code_key := 1; cfg_cookie_key := 2 |} %s %s\n %s\n %s %s %s %s\n %s %s %s %s\n %s %s %s %s %s",
-		mode, c.Str(w.id), c.Str(w.secret), c.Bool(w.valid), c.Bool(spec.Pre), rq,
+	coq := fmt.Sprintf("CReq %d %s {| cfg_id := %s; cfg_secret := %s; cfg_code_key := 1; cfg_cookie_key := 2 |} %s %s\n %s\n %s %s %s %s\n %s %s %s %s\n %s %s %s %s %s",
+		mode, c.Z(p.now), c.Str(w.id), c.Str(w.secret), c.Bool(w.valid), c.Bool(spec.Pre), rq,
 		c.List(tabs), ref, grp, c.Bool(sc.Valid),
 		c.Strs(spec.IDs), c.Strs(spec.Secrets), c.N(code.Kind), cs,
 		c.N(o.Status), c.List(calls), bodyC, c.Bool(o.Leak), c.Bool(o.Foreign))
 	js2 := map[string]interface{}{"kind": "request", "mode": []string{"alone", "in flight with the rest of its batch", "in flight with the rest of its batch, GOMAXPROCS(1)"}[mode], "client_id": w.id, "client_secret": w.secret, "config_valid": w.valid,
 		"request": spec, "code_kind": code.Kind, "provider_script": sc, "observed": o}
+	if p.why != "" {
+		js2["follow_up"] = p.why
+	}
+	if p.now != 0 {
+		js2["seconds_after_sealing"] = p.now
+	}
 	if len(spec.Body) > 400 {
 		cp := spec
 		cp.Body = spec.Body[:400] + "...(" + c.Itoa(len(spec.Body)) + " bytes)"
@@ -985,6 +1216,8 @@ type fixed struct {
 	ep, method, ctype string
 	idCase, secCase   int // -1 = random
 	pre               bool
+	code              *codeSpec // a given code instead of a generated one
+	base              time.Time
 }
 
 func (g *gen) genCase(fx *fixed, hot bool) *prepared {
@@ -1021,6 +1254,9 @@ func (g *gen) genCase(fx *fixed, hot bool) *prepared {
 	}
 	idPick, secPick := -1, -1
 	junkP := 1.0
+	if fx != nil && fx.code != nil {
+		junkP = 0
+	}
 	if fx == nil && (hot || r.Chance(0.45)) {
 		// mostly-valid stream: allowed method, placements that pass (among them the duplicated and
 		// conflicting ones that pass), so that the handlers behind the gates are exercised
@@ -1086,6 +1322,9 @@ func (g *gen) genCase(fx *fixed, hot bool) *prepared {
 	switch ep.path {
 	case "/redeem":
 		code = g.genCode(base, hot)
+		if fx != nil && fx.code != nil {
+			code, base = *fx.code, fx.base
+		}
 		if code.Kind != 0 || r.Chance(0.5) {
 			place("code", code.Value, 0.8)
 		}
@@ -1134,16 +1373,61 @@ func (g *gen) genCase(fx *fixed, hot bool) *prepared {
 	if r.Chance(0.08 * junkP) {
 		bj = append(bj, r.Pick(junkSegs))
 	}
-	spec.Query = render(r, q, qj)
-	switch {
-	case strings.HasPrefix(spec.CType, "multipart/"):
-		spec.Body = multipartBody(b)
-	case spec.CType == "application/json":
-		spec.Body = jsonBody(b)
-	default:
-		spec.Body = render(r, b, bj)
+	p := &prepared{w: w, spec: spec, sc: sc, code: code, base: base, tab: tab, keys: keys, q: q, b: b, qj: qj, bj: bj}
+	g.finish(p)
+	return p
+}
+
+// timed sequences: a genuine code whose session is a few seconds from a deadline is redeemed at once
+// and the SAME string again after the deadline has passed (real time: the code reads time.Now()).
+type timedSeq struct {
+	p    *prepared
+	d    int64 // the near deadline, seconds after base (0: none, control)
+	kind int   // code kind of the second step
+}
+
+func (g *gen) timedStart(cases *[]c.Case) []*timedSeq {
+	var out []*timedSeq
+	base := time.Now().Truncate(time.Second)
+	for i := 0; i < 6; i++ {
+		g.n++
+		s := sess{Email: fmt.Sprintf("zqEM%d@mark.example.test", g.n), Access: fmt.Sprintf("zqAT%dx", g.n),
+			Refresh: fmt.Sprintf("zqRT%dx", g.n), RefreshOff: 3600, LifeOff: 86400}
+		ts := &timedSeq{kind: 1}
+		switch i % 3 {
+		case 0:
+			s.RefreshOff, ts.d, ts.kind = 3, 3, 3
+		case 1:
+			s.LifeOff, ts.d, ts.kind = 3, 3, 4
+		}
+		code := codeSpec{Kind: 1, Value: g.sealWith(g.code, base, s), S: &s}
+		ts.p = g.genCase(&fixed{ep: "/redeem", method: "POST", ctype: "application/x-www-form-urlencoded", pre: i%2 == 1,
+			idCase: 15, secCase: 16, code: &code, base: base}, false)
+		ts.p.why = "timed sequence, first step: redeemed at once"
+		if cs, ok := g.runTimed(ts.p); ok {
+			*cases = append(*cases, cs)
+		}
+		out = append(out, ts)
 	}
-	return &prepared{w: w, spec: spec, sc: sc, code: code, base: base, tab: tab, keys: keys}
+	return out
+}
+
+func (g *gen) timedFinish(tss []*timedSeq, cases *[]c.Case) {
+	for _, ts := range tss {
+		if wait := time.Until(ts.p.base.Add(time.Duration(ts.d)*time.Second + 300*time.Millisecond)); ts.d > 0 && wait > 0 {
+			time.Sleep(wait)
+		}
+		f := ts.p.clone()
+		f.code.Kind = ts.kind
+		f.why = "timed sequence, second step: the same code again"
+		if ts.d > 0 {
+			f.why += " after its session's deadline has passed"
+		}
+		g.finish(f)
+		if cs, ok := g.runTimed(f); ok {
+			*cases = append(*cases, cs)
+		}
+	}
 }
 
 // ---------------------------------------------------------------------------------------------
@@ -1170,7 +1454,9 @@ func (g *gen) loadCase(env map[string]string) c.Case {
 		os.Setenv(k, v)
 	}
 	cfg, err := auth.LoadConfig()
-	c.Must(err)
+	if err != nil {
+		brokenTie("auth.LoadConfig fails on CLIENT_* variables only", err)
+	}
 	for k := range env {
 		os.Unsetenv(k)
 	}
@@ -1181,7 +1467,9 @@ func (g *gen) tableCase(ctor string, m map[string]auth.ClientConfig, env map[str
 	cfg := baseConfig(m)
 	ok := cfg.Validate() == nil
 	a, err := newAuthenticator(cfg, &fakeProvider{ProviderData: &providers.ProviderData{ProviderSlug: "test"}})
-	c.Must(err)
+	if err != nil {
+		brokenTie("auth.NewAuthenticator refuses a client table", err)
+	}
 	names := make([]string, 0, len(m))
 	for k := range m {
 		names = append(names, k)
@@ -1200,6 +1488,7 @@ func (g *gen) tableCase(ctor string, m map[string]auth.ClientConfig, env map[str
 
 func main() {
 	a := c.ParseArgs()
+	args = a
 	c.Quiet()
 	g := &gen{r: c.NewRng(a.Seed), code: mustCipher(codeKeyB64), cookie: mustCipher(cookieKeyB64), foreign: mustCipher(foreignKeyB64)}
 	g.worlds = []*world{
@@ -1267,6 +1556,7 @@ func main() {
 			}
 		}
 	}
+	timed := g.timedStart(&cases)
 	// generated requests come in batches of 4-16: each is first run alone, then the whole batch is
 	// run again with all its requests in flight at once (half of the batches under GOMAXPROCS(1));
 	// "hot" batches are mostly-valid requests of the two valid configurations, so that several
@@ -1281,13 +1571,20 @@ func main() {
 		ps := make([]*prepared, k)
 		for i := range ps {
 			ps[i] = g.genCase(nil, hot)
-			cases = append(cases, g.runSeq(ps[i]))
+			cs, o := g.runSeqObs(ps[i])
+			cases = append(cases, cs)
+			if g.r.Chance(0.5) {
+				for _, f := range g.followUps(ps[i], o) {
+					cases = append(cases, g.runSeq(f))
+				}
+			}
 		}
 		if k >= 2 {
 			cases = append(cases, g.runBatch(ps, g.r.Chance(0.5))...)
 		}
 		done += k
 	}
+	g.timedFinish(timed, &cases)
 	c.Must(c.WriteShards(a.Out, "Corr_C08", cases, a.Shard))
 	fmt.Printf("cases=%d\n", len(cases))
 }
